@@ -31,3 +31,6 @@ import MicroHttp.Props.C04Limit
 #print axioms MicroHttp.Tables.no_interior_mutability
 #print axioms MicroHttp.Tables.server_new
 #print axioms MicroHttp.Tables.server_new_from_fd
+#print axioms MicroHttp.Tables.server_set_limit
+#print axioms MicroHttp.Tables.conn_set_limit
+#print axioms MicroHttp.Tables.accept_configures_limit
